@@ -136,7 +136,8 @@ func TestVerifC10RoundX(t *testing.T) {
 		"equal-target cfsQuota rounds, (2) an outside writer widens / rewrites cpuset files between two equal-target rounds, then the force-update " +
 		"interval passes, (3) BE pod / container cgroups whose directory or cpuset.cpus is missing in one round and appears later with a wide " +
 		"cpuset (also removed and re-created), (4) random mixes; budgets free or pinned on cpuSuppressMinPercent / on the 2000 minimum quota with " +
-		"drifting usage; every file is read back after every round; non-trivial = a round acts after such an event")
+		"drifting usage; node environments as in the cpuset cases, every third history one cell of {reservation shape} x {system-QoS shape}; " +
+		"every file is read back after every round; non-trivial = a round acts after such an event")
 }
 
 func c10CaseRoundX(t *testing.T, h *vHarness, r *vRand, cg *c10Cgroup, beDir string, idx int) {
@@ -148,6 +149,9 @@ func c10CaseRoundX(t *testing.T, h *vHarness, r *vRand, cg *c10Cgroup, beDir str
 		}
 	}
 	cs.topoNil = false
+	if idx%3 == 0 { // systematic stream: every cell of {reservation shape} x {system-QoS shape}
+		c10ApplyAnnoCell(h, r, cs, idx/3)
+	}
 	if cs.kp == 2 { // the malformed kubelet-policy annotation is covered by the other harnesses; here the agent must be able to act
 		delete(cs.topoAnno, apiext.AnnotationKubeletCPUManagerPolicy)
 		cs.kp = 0
